@@ -339,3 +339,20 @@ def small_shapes(slice_i=0, n_slices=1, wrappers=True):
             if i % n_slices == slice_i:
                 yield f
             i += 1
+
+
+def with_fixed_leaf(spec, leaf_id, value):
+    """deep copy of a spec in which every occurrence of the leaf gets constant bounds (value, value)"""
+    import copy
+    s = copy.deepcopy(spec)
+
+    def rec(n):
+        if n["k"] == "leaf":
+            if n["id"] == leaf_id:
+                n["b"] = [value, value]
+                n.pop("str", None)
+        else:
+            for c in n.get("c", []):
+                rec(c)
+    rec(s)
+    return s
